@@ -2,6 +2,8 @@ package xsdtype
 
 import (
 	"fmt"
+	"math"
+	"regexp"
 	"strconv"
 
 	"github.com/dpb587/rdfkit-go/ontology/xsd/xsdiri"
@@ -10,12 +12,30 @@ import (
 	"github.com/dpb587/rdfkit-go/rdf/objecttypes"
 )
 
+var doubleValidRE = regexp.MustCompile(`^([+-]?([0-9]+(\.[0-9]*)?|\.[0-9]+)([eE][+-]?[0-9]+)?|[+-]?INF|NaN)$`)
+
+// formatDouble writes the special values the way XML Schema does (INF, -INF, NaN); strconv prints +Inf and -Inf.
+func formatDouble(v float64, bitSize int) string {
+	if math.IsInf(v, 1) {
+		return "INF"
+	} else if math.IsInf(v, -1) {
+		return "-INF"
+	}
+
+	return strconv.FormatFloat(v, 'f', -1, bitSize)
+}
+
 type Double float64
 
 var _ objecttypes.Value = Double(0)
 
 func MapDouble(lexicalForm string) (Double, error) {
-	vFloat64, err := strconv.ParseFloat(xsdutil.WhiteSpaceCollapse(lexicalForm), 64)
+	lexicalForm = xsdutil.WhiteSpaceCollapse(lexicalForm)
+	if !doubleValidRE.MatchString(lexicalForm) {
+		return Double(0), rdf.ErrLiteralLexicalFormNotValid
+	}
+
+	vFloat64, err := strconv.ParseFloat(lexicalForm, 64)
 	if err != nil {
 		return Double(0), fmt.Errorf("%w: %v", rdf.ErrLiteralLexicalFormNotValid, err)
 	}
@@ -26,7 +46,7 @@ func MapDouble(lexicalForm string) (Double, error) {
 func (v Double) AsObjectValue() rdf.ObjectValue {
 	return rdf.Literal{
 		Datatype:    xsdiri.Double_Datatype,
-		LexicalForm: strconv.FormatFloat(float64(v), 'f', -1, 64),
+		LexicalForm: formatDouble(float64(v), 64),
 	}
 }
 
@@ -42,5 +62,5 @@ func (v Double) TermEquals(t rdf.Term) bool {
 		return false
 	}
 
-	return strconv.FormatFloat(float64(v), 'f', -1, 64) == tLiteral.LexicalForm
+	return formatDouble(float64(v), 64) == tLiteral.LexicalForm
 }
